@@ -289,6 +289,10 @@ func runL1Case(e *l1Env, bc *blobCase, a *alteration, p l1Params, caseNo uint64)
 	replay := map[string]any{"level": "L1", "blob": bc.String(), "blob_index": bc.idx, "alteration": a.Desc, "params": p.String(), "case": caseNo,
 		"tar": gen0(bc), "affected": sortedChunkKeys(a.Affected)}
 	cls := a.Class
+	if knownFatal(a) {
+		r.Inconclusive("case skipped: zstd footer announces a TOC far larger than the blob (known process-fatal allocation, C04 territory)")
+		return
+	}
 	o, err := e.open(a, p)
 	if err != nil {
 		r.Count("l1_open_refused:"+cls, 1)
@@ -570,7 +574,7 @@ func stageL1(r *vf.Run) {
 	}
 	defer closeMS()
 	e := &l1Env{r: r, dbStore: ms, scratch: r.Scratch}
-	nBlobs := r.N(8, 64)
+	nBlobs := r.N(8, 40)
 	perClass := r.N(1, 2)
 	caseNo := uint64(0)
 	for bi := 0; bi < nBlobs; bi++ {
